@@ -131,6 +131,7 @@ def main():
     known, fixed = load_known()
     my_units = [u for u in units if prop in u.props]
     timeout_ms = 15000 if tier == 'quick' else 60000
+    if tier == 'thorough': os.environ['VERIF_XCHECK'] = os.environ.get('VERIF_XCHECK', '12')          # per unit: 12 discharged path queries are re-checked by cvc5
     res = run_units(my_units, timeout_ms=timeout_ms) if my_units else {}
     # ------------------------------------------------ deductive verdicts
     obligations = []           # (unit, obname, status, detail, backends, secs)
@@ -208,6 +209,13 @@ def main():
         lines.append(f'UNDECIDED contracts module {m} failed to load: {tb.splitlines()[-1][:200]}')
     # ------------------------------------------------ thorough tier: guards of the trusted base
     guards = {}
+    xc = {'queries': 0, 'unsat': 0, 'unknown': 0, 'sat': 0, 'error': 0}
+    for u in my_units:
+        for k, v in res.get(u.name, {}).get('xcheck', {}).items():
+            if k in xc: xc[k] += v
+            elif k == 'disagreements':
+                for ob in v: undecided.append((u.name, ob, 'z3 says proved, cvc5 says sat on the same query text: no verdict')); lines.append(f'UNDECIDED obligation={u.name}/{ob} reason=solver disagreement (z3 unsat, cvc5 sat)')
+    if xc['queries']: guards['second_solver_cross_check'] = dict(xc, note='sample of discharged path queries re-checked by cvc5 1.0.3 (10 s each); unknown = cvc5 gave up, sat = disagreement')
     if tier == 'thorough' and prop in ('C01', 'C05', 'C11', 'C15', 'C16', 'C10'):
         r1 = subprocess.run(['python3-vt', os.path.join(ROOT, 'selftest', 'validate_axioms.py')], capture_output=True, text=True)
         guards['axioms_vs_ground_truth'] = {'exit': r1.returncode, 'summary': r1.stdout.strip().splitlines()[-1] if r1.stdout.strip() else r1.stderr[-300:]}
